@@ -910,7 +910,7 @@ func (ck *Check) boundedEffectLoop(rule string, fn *ssa.Function, cls string) *B
 	// the loop's only other exit is exhaustion; a failed write continues
 	okExits := true
 	for _, e := range ba.Loop.Exits {
-		if e[0] != ba.Loop.Header && e[0] != ba.Test.Block() {
+		if !ba.Loop.exhaustionExit(e[0]) && e[0] != ba.Test.Block() {
 			okExits = false
 		}
 	}
